@@ -223,7 +223,14 @@ func (d *FakeDocker) ContainerLogs(_ context.Context, id string, o apicontainer.
 	if round >= 1 {
 		d.callsPer[round-1]++
 	}
-	d.ev("ContainerLogs", F{"ctr": ci, "round": round, "since": o.Since, "until": o.Until, "stdout": o.ShowStdout,
+	num := func(x string) int {
+		v, err := strconv.ParseInt(x, 10, 64)
+		if err != nil || v < 0 || v > 2000000000 {
+			return -1
+		}
+		return int(v)
+	}
+	d.ev("ContainerLogs", F{"ctr": ci, "round": round, "since": o.Since, "until": o.Until, "sinceN": num(o.Since), "untilN": num(o.Until), "stdout": o.ShowStdout,
 		"stderr": o.ShowStderr, "timestamps": o.Timestamps, "tail": o.Tail, "follow": o.Follow, "details": o.Details})
 	var gate chan struct{}
 	if d.gated && d.arrived != nil && round <= len(d.expect) && d.expect[round-1] > 1 {
